@@ -9,6 +9,9 @@ import (
 	"regexp"
 	"strings"
 
+	"github.com/go-kit/log"
+	"github.com/prometheus/prometheus/config"
+
 	"kvassverif/cfggen"
 	"kvassverif/core"
 	"kvassverif/sidecarsim"
@@ -161,10 +164,21 @@ func c16Run(tp *core.Tape, e *core.Env) {
 			e.Undecided("edited config rejected (%+v): %v", ed, err)
 			return
 		}
+		if ed.Kind == "reorder" {
+			// swapping two entries that Prometheus loads to the same rule (one spells a default out,
+			// e.g. `separator: ;`) changes the text, not the configuration: not a semantic edit
+			ca, errA := config.Load(textA, false, log.NewNopLogger())
+			cc, errC := config.Load(textC, false, log.NewNopLogger())
+			if errA == nil && errC == nil && ca.String() == cc.String() {
+				e.Probe("reorder_of_equivalent_entries_skipped")
+				continue
+			}
+		}
 		field := idxRe.ReplaceAllString(fieldClass(ed.Path), "")
 		e.Key("semantic", ed.Kind, field)
 		e.Probe("semantic_edit_" + ed.Kind)
 		if hC == hA {
+			e.Logf("original text:\n%s\nedited text:\n%s", textA, textC)
 			e.Violate("insensitive", "field="+field, "changing %s from %q to %q (%s edit) does not change the hash %s", ed.Path, ed.From, ed.To, ed.Kind, hA)
 		}
 	}
